@@ -104,7 +104,14 @@ def replay(cfg, events):
                 e["ys"], e["ys2"], e["zs"] = [abst(t) for t in ys], [abst(t) for t in ys2], [abst(t) for t in zs]
             elif op == "via":
                 a = conc(e["a"])
-                b = via(e["how"], a)
+                if e["how"] == "nodepickler":
+                    # the store-level pickler, one instance shared by successive terms (as Store.node_pickler is)
+                    from rdflib.store import NodePickler
+                    np_ = NodePickler()
+                    np_.loads(np_.dumps(conc(e["first"])))
+                    b = np_.loads(np_.dumps(a))
+                else:
+                    b = via(e["how"], a)
                 e["b"] = abst(b)
                 e["same_class"] = type(b) is type(a)
             elif op == "trans":
@@ -114,6 +121,7 @@ def replay(cfg, events):
                 raise ValueError(op)
         except Exception as ex:  # noqa: BLE001
             e["raise"] = type(ex).__name__ + ": " + str(ex)[:100]
+        e.pop("first", None)
         for key in ("a", "b", "c"):
             if key in e and "k" in e[key] and "lang" not in e[key]:
                 e[key] = rec(e[key])
